@@ -13,7 +13,7 @@ import ast
 
 from ..core import rule
 from ..model import AnalysisError
-from ..norm import Norm, expected
+from ..norm import Norm, expected, value_cases
 from ..paths import walk_no_nested, must_on_all_paths, const_guard
 from ..effects import is_call_to
 from .c13 import _is_invalidate
@@ -179,3 +179,38 @@ def r11_5(ctx):
 def r11_6(ctx):
     from .c10 import r10_2
     r10_2(ctx)
+
+
+@rule("R11.7", min_instances=2, desc="the default guess of a promoted horizon yields to a guess the user gave for ocp.T / ocp.t0 before transcription (shared with C10)")
+def r11_7(ctx):
+    """Necessary for 'its starting value is the guess' and for C10's 'guesses given before the first transcription or
+    after it produce the same starting point': the promotion handler registers the FreeTime default for the new variable
+    with priority, i.e. at the front of the guess table, while a user's entry for the placeholder sits wherever the call
+    order left it.  Time-dependent guesses processed in between are evaluated with the default horizon unless the
+    registered value is the user's own guess when there is one."""
+    P = ctx.prog
+    for which, attr, ph in (("T", "_T", "stage.T"), ("t0", "_t0", "stage.t0")):
+        f = P.own_method("DirectMethod", "fill_placeholders_" + which)
+        sc = ctx.scope(f)
+        ini = [c for c in walk_no_nested(f.node) if is_call_to(c, "set_initial", "stage") and len(c.args) >= 2 and ast.unparse(c.args[0]) == "stage.%s" % attr]
+        ok = len(ini) == 1
+        found = "; ".join(ast.unparse(c) for c in ini)
+        if ok:
+            v = ini[0].args[1]
+            # every way the registered value can be defined: declared default, or the user's entry for the placeholder
+            srcs = set()
+            names = [v.id] if isinstance(v, ast.Name) else []
+            texts = [ast.unparse(v)]
+            for nm in names:
+                for d in sc.defs.get(nm, []):
+                    if d.kind == "assign":
+                        for conds, leaf in value_cases(sc, nm):
+                            texts.append(ast.unparse(leaf))
+            reads_user = any(("_initial" in t and ph in t.replace("self.", "stage.")) for t in texts)
+            reads_default = any(t.endswith("%s.T_init" % attr) for t in texts)
+            ok = reads_user and reads_default
+            found = sorted(set(texts))
+        ctx.check(ok, "fill_placeholders_%s: a user's guess for ocp.%s replaces the FreeTime default" % (which, which),
+                  detail="default horizon guess registered ahead of (and regardless of) the user's own guess: time-dependent guesses given before transcription are evaluated with the default horizon",
+                  expected="init = stage.%s.T_init; replaced by stage._initial[%s] when the user provided one" % (attr, ph), found=found, fi=f, node=(ini[0] if ini else None),
+                  sample={"handler": f.qualname, "sources": found})
